@@ -200,10 +200,14 @@ class KGLambda:
 
     def _get_pos_args(self, ctx):
         if self._wildcard:
+            # the arguments of this call are in the innermost frame: an enclosing
+            # function's y or z is not an argument of the function called here
+            frames = getattr(ctx, '_context', None)
+            frame = ctx if frames is None else frames[0]
             pos_args = []
             for sym in reserved_fn_symbols:
                 try:
-                    pos_args.append(ctx[sym])
+                    pos_args.append(frame[sym])
                 except KeyError:
                     break
         else:
